@@ -60,6 +60,12 @@ structure CallInfo where
   abandoned : Bool := false
   /-- abandoned while certainly still waiting (a `Hold` through a proxy that was up) -/
   abortSure : Bool := false
+  /-- the caller's own timeout: absolute time (ms) -/
+  deadline : Option Nat := none
+  /-- the deadline has passed -/
+  expired : Bool := false
+  /-- … while the call was certainly still waiting -/
+  timeoutSure : Bool := false
 
 structure E2E where
   /-- per probe: 0 up, 1 stop issued, 2 down, 3 spawn issued -/
@@ -71,6 +77,8 @@ structure E2E where
   settled : Bool := true
   /-- (probe, group) memberships of the real actors -/
   joins : List (Nat × String) := []
+  /-- the paused clock (ms) -/
+  now : Nat := 0
 
 def replyOf (t req : Nat) : Nat := req * 7 + t + 1
 
@@ -149,6 +157,44 @@ def stepE2E (e : E2E) (w : List String) (impl : String) : Option (E2E × StepOut
         if impl == "ok" then some (e.setPx { p with net := p.net.step (.cast sender seq), exact := false }, { model := impl })
         else some (e.setPx { p with exact := false }, { model := if impl == "err" || impl == "noproxy" then impl else "ok|err" })
     | _, _, _, _ => none
+  | ["advance", ms] =>
+    ms.toNat?.map fun ms =>
+      let now := e.now + ms
+      let e := { e with now := now, settled := false }
+      -- callers whose timeout has come give up: their port closes
+      let due := e.calls.filter fun c => !c.expired && !c.abandoned && (match c.deadline with | some d => d ≤ now | none => false)
+      let e := due.foldl (fun (e : E2E) c =>
+        let p := e.px c.dir c.t
+        let sure := c.port.isSome && p.exact && e.pstate c.t == 0
+        let net := match c.port with | some q => p.net.step (.abandon q) | none => p.net
+        { (e.setPx { p with net := net }) with
+            calls := e.calls.map fun c' => if c'.id == c.id then { c' with expired := true, timeoutSure := sure } else c' }) e
+      (e, { model := "ok", nontrivial := !due.isEmpty })
+  | ["holdt", d, t, id, req, ms] =>
+    match parseDir? d, t.toNat?, id.toNat?, req.toNat?, ms.toNat? with
+    | some d, some t, some id, some req, some ms =>
+      let e := { e with settled := false }
+      let p := e.px d t
+      let dl := some (e.now + ms)
+      match e.pstate t with
+      | 3 => some ({ e with calls := e.calls ++ [{ id, dir := d, t, req, hold := true, port := none, nocall := true }] }, { model := "noproxy" })
+      | 0 =>
+        let port := p.net.nport
+        some ({ (e.setPx { p with net := p.net.step (.call 0 req) }) with
+                  calls := e.calls ++ [{ id, dir := d, t, req, hold := true, port := some port, deadline := dl }] },
+              { model := "ok", nontrivial := true })
+      | 2 => some ({ e with calls := e.calls ++ [{ id, dir := d, t, req, hold := true, port := none, down := true,
+                                                   nocall := impl == "noproxy" }] },
+                   { model := if impl == "noproxy" then impl else "ok" })
+      | _ =>
+        if impl == "noproxy" then
+          some ({ e with calls := e.calls ++ [{ id, dir := d, t, req, hold := true, port := none, nocall := true }] }, { model := impl })
+        else
+        let port := p.net.nport
+        some ({ (e.setPx { p with net := p.net.step (.call 0 req), exact := false }) with
+                  calls := e.calls ++ [{ id, dir := d, t, req, hold := true, port := some port, deadline := dl }] },
+              { model := "ok" })
+    | _, _, _, _, _ => none
   | [kind, d, t, id, req] =>
     if kind != "call" && kind != "hold" then none else
     match parseDir? d, t.toNat?, id.toNat?, req.toNat? with
@@ -220,9 +266,10 @@ def stepE2E (e : E2E) (w : List String) (impl : String) : Option (E2E × StepOut
           (pre, !mustAll || got == want, want)
         let (pa, ca, wa) := judge 0
         let (pb, cb, wb) := judge 1
+        let exactNow := e.settled && e.pstate t == 0 && (e.px 0 t).exact && (e.px 1 t).exact
         let bad := (if pa && pb then [] else ["order"]) ++ (if ca && cb then [] else ["complete"])
         (e, { model := if bad.isEmpty then impl else s!"a=[{showItems wa}] b=[{showItems wb}]",
-              oracle := bad, nontrivial := es.length > 2,
+              oracle := bad, nontrivial := es.length > 2 && exactNow,
               key := some s!"recv {impl}" })
   | ["result", id] =>
     id.toNat?.map fun id =>
@@ -237,6 +284,8 @@ def stepE2E (e : E2E) (w : List String) (impl : String) : Option (E2E × StepOut
           then ["reply-correlation"] else []
         let expect : Option String :=
           if c.nocall then some "nocall"
+          else if c.timeoutSure && !c.abandoned then some "timeout"
+          else if c.expired then none
           else if c.abandoned then (if c.abortSure then some "aborted" else none)
           else if c.port.isNone then (if c.down then some "senderr" else none)
           else if !(p.exact && e.settled) then none
@@ -248,14 +297,15 @@ def stepE2E (e : E2E) (w : List String) (impl : String) : Option (E2E × StepOut
               -- the proxy has stopped (its target exited or the session closed): its pending
               -- reply ports are dropped; while it is up an unanswered call stays pending
               if e.pstate c.t == 2 then some "dropped" else if e.pstate c.t == 0 then some "pending" else none
-        let allowed := ["pending", "dropped", "senderr", "aborted", "nocall"] ++ (if c.hold then [] else [correct])
+        let allowed := ["pending", "dropped", "senderr", "aborted", "nocall"] ++ (if c.hold then [] else [correct]) ++
+          (if c.deadline.isSome then ["timeout"] else [])
         let model := match expect with
           | some x => x
           | none => if allowed.contains impl then impl else s!"one-of:{allowed}"
         let missing := match expect with
           | some x => if x != impl && x.startsWith "ok:" then ["reply-complete"] else []
           | none => []
-        (e, { model := model, oracle := wired ++ missing, nontrivial := impl.startsWith "ok:",
+        (e, { model := model, oracle := wired ++ missing, nontrivial := impl.startsWith "ok:" && expect.isSome,
               key := some s!"result {c.dir} {c.t} {c.hold} {impl}" })
   | ["join", t, g] =>
     t.toNat?.map fun t =>
